@@ -627,6 +627,62 @@ pub struct Tree {
     pub dirs: Vec<PkgDir>,
     /// Plain files in the database directory itself.
     pub stray: Vec<(String, String)>,
+    /// Other kinds of file-system objects and names that are not UTF-8.
+    pub odd: Vec<Odd>,
+}
+
+/// What else a directory can hold besides regular files and directories with
+/// UTF-8 names.  None of them is a package (or changes whether the
+/// directory it lies in is one), except `CompleteDir`: a complete package
+/// directory whose name is not UTF-8 cannot be reported as a `pkgname`
+/// string, so the iterator may report an error item for it - and has to go
+/// on with the other entries.
+#[derive(Clone, Copy, Debug, PartialEq, Eq)]
+pub enum OddKind {
+    File,
+    DanglingLink,
+    LinkLoop,
+    LinkToFile,
+    EmptyDir,
+    IncompleteDir,
+    CompleteDir,
+}
+
+pub struct Odd {
+    /// `None`: in the database directory; `Some(i)`: inside `dirs[i]`.
+    pub place: Option<usize>,
+    pub name: Vec<u8>,
+    pub kind: OddKind,
+}
+
+const ODD_NAMES: [&[u8]; 10] = [
+    b"caf\xe9.orig", b"\xff\xfe", b"lib\xa0x-1.0", b"\xe9-1.0", b"pkg-1.0\xc3", b"+COMMENT\xff", b"\x80", b"link-1.0", b"zz-link-2.0nb1", b".#lock",
+];
+
+/// 1-3 odd objects for a tree (see `OddKind`).
+pub fn odd_objects(r: &mut Rng, ndirs: usize, used: &[String]) -> Vec<Odd> {
+    let mut out: Vec<Odd> = vec![];
+    for _ in 0..r.range(1, 3) {
+        let name = r.pick(&ODD_NAMES).to_vec();
+        let utf8 = std::str::from_utf8(&name).is_ok();
+        if out.iter().any(|o| o.name == name) || used.iter().any(|u| u.as_bytes() == &name[..]) {
+            continue;
+        }
+        let place = if ndirs > 0 && r.chance(1, 2) { Some(r.below(ndirs)) } else { None };
+        let kind = match place {
+            Some(_) => *r.pick(&[OddKind::File, OddKind::File, OddKind::DanglingLink, OddKind::LinkLoop, OddKind::LinkToFile, OddKind::EmptyDir]),
+            None => *r.pick(&[
+                OddKind::File, OddKind::DanglingLink, OddKind::LinkLoop, OddKind::LinkToFile, OddKind::EmptyDir, OddKind::IncompleteDir, OddKind::CompleteDir,
+                OddKind::CompleteDir,
+            ]),
+        };
+        // a complete directory with a UTF-8 name would simply be a package
+        let kind = if kind == OddKind::CompleteDir && utf8 { OddKind::IncompleteDir } else { kind };
+        // (symbolic links are left to the native runs)
+        let kind = if cfg!(miri) && matches!(kind, OddKind::DanglingLink | OddKind::LinkLoop | OddKind::LinkToFile) { OddKind::File } else { kind };
+        out.push(Odd { place, name, kind });
+    }
+    out
 }
 
 const NAME_PARTS: [&str; 14] = [
@@ -784,7 +840,8 @@ pub fn tree(r: &mut Rng, serial: &mut usize) -> Tree {
             }
         }
     }
-    Tree { dirs, stray }
+    let odd = if r.chance(1, 3) { odd_objects(r, dirs.len(), &used) } else { vec![] };
+    Tree { dirs, stray, odd }
 }
 
 /// Near-miss file names that must not map to a metadata entry.
